@@ -36,10 +36,6 @@ structure StepRelO (wk : Option Int) (R : GW → Res → Prop) : Prop where
     n'.desired = n.desired → n'.queue = n.queue → n'.reboot = n.reboot → n'.version = n.version →
     R g (MySensors.alert (setNode g k n') m)
   smartSleep : ∀ g node, wk = some node → isKnown g node none = true → R g (smartSleep g node)
-  storeDesired : ∀ g node child n vt value msg ack, aget node g.sensors = some n → n.sleeping = true →
-    createSetMessage g node child vt value ack = .ok msg → R g (storeDesired g node child n vt value)
-  directSet : ∀ g node child n vt value msg ack, aget node g.sensors = some n → n.sleeping = false →
-    createSetMessage g node child vt value ack = .ok msg → R g (emit g [encLine msg])
   setReboot : ∀ g k n, aget k g.sensors = some n → R g (MySensors.ret (setNode g k { n with reboot := true }))
   setOta : ∀ g o, R g (MySensors.ret { g with ota := o })
   setCanLog : ∀ g, R g (MySensors.ret { g with canLog := true })
@@ -279,17 +275,25 @@ theorem relo_logic (hsubs : IgnoresSubs R) (g : GW) (line : Str) (hk : KeyRange 
         exact relo_dispatchBy hR hsubs _ g _ hk (validate_node_range _ _ hv) hh (hw m (by assumption) hv)
     · exact hR.ret g
 
-theorem relo_setChildValue (g : GW) (node child : Int) (vt : VT) (value : Str) (ack : Option Int) :
+/-- `set_child_value`: the two controller-only primitives are hypotheses here, so that relations
+    used for inbound lines need not account for them -/
+theorem relo_setChildValue (g : GW) (node child : Int) (vt : VT) (value : Str) (ack : Option Int)
+    (hstore : ∀ n msg, aget node g.sensors = some n → n.sleeping = true →
+      createSetMessage g node child vt.toInt value (ack.getD 0) = .ok msg →
+      R g (storeDesired g node child n vt.toInt value))
+    (hdirect : ∀ n msg, aget node g.sensors = some n → n.sleeping = false →
+      createSetMessage g node child vt.toInt value (ack.getD 0) = .ok msg → R g (emit g [encLine msg])) :
     R g (setChildValue g node child vt value ack) := by
   unfold setChildValue
   apply relo_ifKnown hR; intro _
   apply relo_withNode hR; intro n hn
+  unfold setKnown
   split
   · exact hR.fail g _
   · rename_i msg hmsg
     split
-    · rename_i hs; exact hR.storeDesired g node child n _ value msg _ hn hs hmsg
-    · rename_i hs; exact hR.directSet g node child n _ value msg _ hn (by simpa using hs) hmsg
+    · rename_i hs; exact hstore n msg hn hs hmsg
+    · rename_i hs; exact hdirect n msg hn (by simpa using hs) hmsg
 
 theorem relo_scheduleNode (fwt fwv : Int) (g : GW) (nid : Int) :
     R g (MySensors.ret (scheduleNode fwt fwv g nid)) := by
